@@ -3,9 +3,11 @@ package rules
 import (
 	"fmt"
 	"go/ast"
+	"go/constant"
 	"go/token"
 	"go/types"
 	"sort"
+	"strconv"
 	"strings"
 
 	"golang.org/x/tools/go/ssa"
@@ -16,7 +18,7 @@ import (
 func init() { Registry["C15"] = checkC15 }
 
 func checkC15(p *core.Prog, r *core.Report) {
-	r.Explanation = "Decides structural necessary conditions of the atomic-register behaviour: (R1) on every path of Lock/UnLock/wakeUpWaitLock that applies a value operation (ProcessLockData) and then answers, the reply's value argument is a GetLockData() result obtained before the operation, inside the same shard-mutex section; (R2) refusal replies are reached without ProcessLockData/ProcessRecoverLockData on the path; (R3) the operation switches of ProcessLockData and ProcessRecoverLockData have a case for every LOCK_DATA_COMMAND_TYPE_* constant; (R4) the Redis-style command names are registered identically in the leader and follower text protocols and in the converter; (R5) published value frames are immutable: no element store, copy destination or append base in the value-operation code derives from the manager's current frame (replies, undo records and the log still reference it). (R6) the pre-operation value kept for a pending request (LockData.recoverData) is read before the call that clears it, never after. NOT decided: the byte surgery of each operation, numeric overflow, the Redis-style answers."
+	r.Explanation = "Decides structural necessary conditions of the atomic-register behaviour: (R1) on every path of Lock/UnLock/wakeUpWaitLock that applies a value operation (ProcessLockData) and then answers, the reply's value argument is a GetLockData() result obtained before the operation, inside the same shard-mutex section; (R2) refusal replies are reached without ProcessLockData/ProcessRecoverLockData on the path; (R3) the operation switches of ProcessLockData and ProcessRecoverLockData have a case for every LOCK_DATA_COMMAND_TYPE_* constant; (R4) the Redis-style command names are registered identically in the leader and follower text protocols and in the converter; (R5) published value frames are immutable: no element store, copy destination or append base in the value-operation code derives from the manager's current frame (replies, undo records and the log still reference it). (R6) the pre-operation value kept for a pending request (LockData.recoverData) is read before the call that clears it, never after. (R7) the Redis-style result writers answer with an error line only on a path where the engine's result code was tested non-zero (an applied operation is never reported as refused). NOT decided: the byte surgery of each operation, numeric overflow, the Redis-style answers."
 	r.Assumptions = []string{"Go type checker and go/ssa are correct for /repo", "GetLockData returns the current frame without copying (so R5 matters)"}
 	c15R1(p, r)
 	c15R2(p, r)
@@ -24,6 +26,7 @@ func checkC15(p *core.Prog, r *core.Report) {
 	c15R4(p, r)
 	c15R5(p, r)
 	c15R6(p, r)
+	c15R7(p, r)
 }
 
 func c15R1(p *core.Prog, r *core.Report) {
@@ -540,5 +543,93 @@ func c15R6(p *core.Prog, r *core.Report) {
 	}
 	if n == 0 {
 		r.Fail("C15/R6: no function both reads recoverData and calls its clearing function")
+	}
+}
+
+// leadingText returns the constant text a reply value starts with, when the
+// value is built the way the converters build replies: []byte(s), a string
+// constant, fmt.Sprintf(const, ...), const + x.
+func leadingText(v ssa.Value, depth int) (string, bool) {
+	if depth > 8 {
+		return "", false
+	}
+	switch t := v.(type) {
+	case *ssa.Const:
+		if t.Value != nil && t.Value.Kind() == constant.String {
+			return constant.StringVal(t.Value), true
+		}
+	case *ssa.Convert:
+		return leadingText(t.X, depth+1)
+	case *ssa.ChangeType:
+		return leadingText(t.X, depth+1)
+	case *ssa.BinOp:
+		if t.Op == token.ADD {
+			return leadingText(t.X, depth+1)
+		}
+	case *ssa.Call:
+		if c := t.Common().StaticCallee(); c != nil && c.Pkg != nil && c.Pkg.Pkg.Path() == "fmt" && c.Name() == "Sprintf" && len(t.Common().Args) > 0 {
+			return leadingText(t.Common().Args[0], depth+1)
+		}
+	}
+	return "", false
+}
+
+// c15R7: the functions that turn the engine's result into a Redis-style
+// answer say "error" only where the engine's result says so.
+func c15R7(p *core.Prog, r *core.Report) {
+	const rule = "C15/R7"
+	r.Rule(rule, "a Redis-style result writer answers with an error line (\"-...\") only on a path where the engine's result code was tested non-zero", 6)
+	n := 0
+	for _, fn := range p.FuncsIn("protocol") {
+		if fn.Blocks == nil {
+			continue
+		}
+		ps := fn.Params
+		if fn.Signature.Recv() != nil {
+			if len(ps) == 0 {
+				continue
+			}
+			ps = ps[1:]
+		}
+		if len(ps) != 3 || !strings.HasSuffix(ps[2].Type().String(), "protocol.LockResultCommand") || !strings.HasSuffix(ps[1].Type().String(), "protocol.ISteam") {
+			continue
+		}
+		res := ps[2].Name()
+		name := core.FuncName(fn)
+		ex := core.NewExplorer(p, core.Hooks{
+			Track: func(x *core.X, a core.Atom) bool {
+				return strings.Contains(core.Plain(a.String()), res+".Result")
+			},
+			Instr: func(x *core.X) {
+				c, ok := x.Ins.(ssa.CallInstruction)
+				if !ok || !c.Common().IsInvoke() || c.Common().Method.Name() != "WriteBytes" || len(c.Common().Args) != 1 {
+					return
+				}
+				text, ok := leadingText(c.Common().Args[0], 0)
+				if !ok || !strings.HasPrefix(text, "-") {
+					return
+				}
+				n++
+				key := siteKey(p, x.Ins)
+				refused := false
+				for h := range x.St.Hist {
+					if strings.HasPrefix(h, res+".") && strings.HasSuffix(h, ".Result != 0") {
+						refused = true
+					}
+				}
+				if refused {
+					r.Hold(rule, key, x.Pos(), "error line behind "+res+".Result != 0")
+				} else {
+					r.Violate(rule, key, x.Pos(), "an error line "+strconv.Quote(text)+" is written on a path where the engine's result code is zero (the operation was applied): the client is told its request was refused although the value changed", x.St.Trace)
+				}
+			},
+		})
+		ex.Run(fn, nil)
+		if ex.Imprecise != "" {
+			r.Fail("C15/R7 %s: %s", name, ex.Imprecise)
+		}
+	}
+	if n == 0 {
+		r.Fail("C15/R7: no error line found in any result writer")
 	}
 }
